@@ -403,6 +403,23 @@ def real(repo=None, max_cells=60000):
                'properties': list(properties), 'rows': masks}
 
 
+def deep(tier, seed=0):
+    """Ordinal scales (chains) of 1 050-1 400 concepts, listed most-specific-first, most-general-first
+    and shuffled: lattices that are *deep* rather than wide (recursion depth, stack sizes)."""
+    rng = random.Random(f'{seed}/DEEP')
+    for n in ([1100] if tier == 'quick' else [1050, 1250, 1400]):
+        rows = [(f'o{i:04d}', ((1 << n) - 1) & ~((1 << i) - 1)) for i in range(n)]   # o_i has p_j for j >= i
+        for order in ('specific-first', 'general-first', 'shuffled'):
+            r = list(rows)
+            if order == 'specific-first':
+                r = r[::-1]
+            elif order == 'shuffled':
+                rng.shuffle(r)
+            # the labels move with their rows: the three cases are the same context, reordered
+            yield {'fam': f'DEEP:chain{n}:{order}', 'objects': [o for o, _ in r],
+                   'properties': [f'p{j:04d}' for j in range(n)], 'rows': [m for _, m in r], 'deep': True}
+
+
 def biglat(tier):
     """Lattices with tens of thousands of concepts (thorough tier only): Boolean lattices of the
     contranominal scales 15 and 16 (32 768 / 65 536 concepts) - thresholds inside the
